@@ -244,16 +244,16 @@ def _session_cmp(lines, io, mo):
     return diffs
 
 
-def _sessions(ctx, tag, n, caches):
+def _sessions(ctx, tag, n, caches, texts=None, evals_only=False):
     seed = ctx['seed']
-    texts = histgen.pool(seed)
+    texts = texts or histgen.pool(seed)
     variants = [v for t in texts for v in (t, t.rstrip(), t.rstrip() + ' ', t.rstrip() + '\n')]
     corr.pool()
     table = histgen.fresh_table(variants + histgen.NAMESRC)
     lines, descr = [], []
     for i in range(n):
         rng = random.Random(f'{seed}/{tag}/{i}')
-        l, c = histgen.history(rng, texts, rng.choice(caches))
+        l, c = histgen.history(rng, texts, rng.choice(caches), evals_only)
         lines.append(histgen.with_table(l, c, table))
         descr.append(l[:80] + ' ' + ' ; '.join(str(x[:3]) for x in c)[:600])
     return lines, descr
@@ -396,3 +396,14 @@ def slice_malformed(ctx):
                    'random character strings, truncations of valid programs at a random character, unbalanced / unterminated fragments '
                    '(PARSE and NAMES); each listed language-level failure planted at 22 syntactic positions (EVAL); non-trivial = an error outcome',
                    nontriv)
+
+
+def slice_session_scope(ctx):
+    """C10: sequences of evals of VALID texts only (so nothing here depends on error recovery), with and without a names
+    mapping: top-level assignments must land in the caller's mapping (or vanish with names=None), never in the builtins"""
+    lines, descr = _sessions(ctx, 'histscope', 8000 if big(ctx) else 700, ['none'], texts=list(histgen.VALID), evals_only=True)
+    io, mo, _, dt = corr.compare(lines)
+    d = _session_cmp(lines, io, mo)
+    return _finish('session_scope', lines, descr, io, mo, d, dt,
+                   'histories of 2..10 evals of valid texts (assignments to builtin names, lambdas, reads) on one SqParser with 1..3 '
+                   'names mappings and names=None calls; every call compared', list(range(len(lines))))
